@@ -31,6 +31,12 @@ type Deep struct {
 	MPS map[string]*[]int
 	MIf map[string]interface{}
 	In  struct{ L [][]string }
+	// arrays are values, what their elements reference is not
+	AP  [2]*int
+	ASl [2][]string
+	AM  [1]map[string]int
+	AIn [2]struct{ P *Inner }
+	SAP [][2]*int
 }
 
 func genDeep(g *G) *Deep {
@@ -115,6 +121,23 @@ func genDeep(g *G) *Deep {
 	}
 	if g.pct("inl") < 60 {
 		d.In.L = [][]string{strs(), strs()}
+	}
+	if g.pct("ap") < 60 {
+		v := g.uni(9, "apv")
+		d.AP = [2]*int{&v, nil}
+	}
+	if g.pct("asl") < 60 {
+		d.ASl = [2][]string{strs(), nil}
+	}
+	if g.pct("am") < 60 {
+		d.AM = [1]map[string]int{smap()}
+	}
+	if g.pct("ain") < 60 {
+		d.AIn[1].P = g.inner()
+	}
+	if g.pct("sap") < 50 {
+		v := g.uni(9, "sapv")
+		d.SAP = [][2]*int{{nil, &v}}
 	}
 	return d
 }
